@@ -81,14 +81,14 @@ theorem acyclic_is_sorted (g : Graph) (keyOrder : List Nat)
   simp only [hc, Bool.false_eq_true, ↓reduceIte]
   exact ⟨_, rfl⟩
 
-/-- a returned order witnesses acyclicity: `TopSortDFS` reports a cycle for every cyclic graph -/
+/-- **cyclic graphs are refused**: a returned order witnesses acyclicity (its positions are a rank that increases along
+every edge), so for a graph with a cycle `TopSortDFS` reports the cycle under every iteration order -/
 theorem cyclic_is_refused (g : Graph) (keyOrder order : List Nat)
     (hsrc : ∀ e ∈ g.edges, e.1 ∈ g.nodes)
     (hko : ∀ x, x ∈ keyOrder ↔ x ∈ g.allNodes)
-    (h : (topSortDFS g keyOrder).order = some order) : ∀ e ∈ g.edges, e.1 ≠ e.2 := by
-  intro e he
+    (h : (topSortDFS g keyOrder).order = some order) : Acyclic g := by
   obtain ⟨hnd, _, hb⟩ := order_respects_deps g keyOrder order hsrc hko h
-  exact (hb e he).ne_of_nodup hnd
+  exact ⟨pos order, fun e he => pos_lt_of_before order e.1 e.2 hnd (hb e he)⟩
 
 -- ================================================================ 2. the graph of SortUnconfirmedTx
 
